@@ -167,7 +167,7 @@ def main(prop):
     try:
         if prop == "C08":
             pairs(ck, 5000 if quick else 200000)
-        files(ck, prop, tmp, 120 if quick else 2500)
+        files(ck, prop, tmp, 120 if quick else 1200)
     finally:
         shutil.rmtree(tmp, ignore_errors=True)
     ck.rule = {
